@@ -119,3 +119,8 @@ func VerifC03_NullChunkDigest() {
 	}
 	vAssert(err != nil, "a chunk the store does not have was read without an error")
 }
+
+// VerifC03_SparseConcurrent: consumers of the stores - the copy-on-read sparse file behind
+// `mount-index --cor-file` with two concurrent readers over a store with a failing request
+// (the body is C10's): no reader is handed bytes that are not the blob's.
+func VerifC03_SparseConcurrent() { VerifC10_Concurrent() }
